@@ -109,7 +109,15 @@ func (d *Decoder) Decode(bts []byte) (interface{}, error) {
 }
 
 //ReadObject read new object from reader
-func (d *Decoder) ReadObject() (interface{}, error) {
+func (d *Decoder) ReadObject() (obj interface{}, err error) {
+	// the input is untrusted: a value that does not fit the type map (a string where the
+	// struct has an int, an unhashable map key, ...) surfaces in reflect as a panic; report it
+	// as a decode error
+	defer func() {
+		if r := recover(); r != nil {
+			obj, err = nil, newCodecError("ReadObject", "invalid input: %v", r)
+		}
+	}()
 	return EnsureInterface(d.ReadData())
 }
 
